@@ -77,10 +77,9 @@ Section Encoder.
   Variable fl : flags.
 
   Fixpoint result_default (o : pyval) : result pyval :=
-    let fix each (l : list pyval) : result (list pyval) :=
-      match l with [] => Ok [] | x :: xs => do y <- result_default x; do ys <- each xs; Ok (y :: ys) end in
-    let fix each_val (l : list (pyval * pyval)) : result (list pyval) :=
-      match l with [] => Ok [] | (k, v) :: xs => do y <- result_default v; do ys <- each_val xs; Ok (PList [k; y] :: ys) end in
+    let each := mapR result_default in     (* [self.default(x) for x in l] *)
+    let each_val :=                         (* [[k, self.default(v)] for k, v in d.items()] *)
+      mapR (fun kv : pyval * pyval => let '(k, v) := kv in do y <- result_default v; Ok (PList [k; y])) in
     (* if any(isinstance(o, t) for t in self._evqe_encoder.serializable_types()): *)
     if is_evqe_serializable o then evqe_default o
     else match o with
@@ -180,21 +179,25 @@ Definition result_own_keys : list string :=
    "evolving_ansatz_result_circuit_evaluations"; "evolving_ansatz_result_generations";
    "evolving_ansatz_population_evaluation_results"; "evolving_ansatz_population_initial_state_circuit"].
 
+(* the aux_operators_evaluated part of parse_evolving_ansatz_result *)
+Definition unwrap_aux (a : pyval) : result pyval :=
+  match a with
+  | PDict kvs =>                                          (* isinstance(aux_operators_evaluated, dict) *)
+      do t <- pdict_get (K "type") kvs;
+      if py_eqb t (K "list") then pdict_get (K "values") kvs
+      else do t' <- pdict_get (K "type") kvs;
+           if py_eqb t' (K "dict") then do v <- pdict_get (K "values") kvs; py_dict v
+           else Ok PNone
+  | _ => Ok PNone
+  end.
+
 Section Decoder.
   Variable fl : flags.
 
   Definition parse_evolving_ansatz_result (d : sdict) : result pyval :=
     do eigenvalue <- dget "evolving_ansatz_result_eigenvalue" d;
     do a <- dget "evolving_ansatz_result_aux_operators_evaluated" d;
-    do aux <- match a with
-              | PDict kvs =>
-                  do t <- pdict_get (K "type") kvs;
-                  if py_eqb t (K "list") then pdict_get (K "values") kvs
-                  else do t' <- pdict_get (K "type") kvs;
-                       if py_eqb t' (K "dict") then do v <- pdict_get (K "values") kvs; py_dict v
-                       else Ok PNone
-              | _ => Ok PNone
-              end;
+    do aux <- unwrap_aux a;
     do eigenstate <- dget "evolving_ansatz_result_eigenstate" d;
     do best <- dget "evolving_ansatz_result_best_individual" d;
     do evaluations <- dget "evolving_ansatz_result_circuit_evaluations" d;
